@@ -32,6 +32,11 @@ def run(ctx) -> None:
     check_eval(ctx)
     check_guard(ctx)
     check_route(ctx)
+    # the rule is evaluated from the tree on every call (shared with C08): a memo on the GPR survives in-place rewrites
+    from . import c08
+
+    ctx.rule("C08.nocache", "T8: a GPR holds no derived state besides the gene set it re-derives on every read (shared with C08)", floor=5)
+    c08.check_nocache(ctx)
 
 
 # ------------------------------------------------------------------------------------------ eval
